@@ -1,0 +1,13 @@
+// +build verif
+
+package cluster
+
+// Setters for the unexported epoch fields: an in-memory register used by the
+// simulation harness must hand out and update epochs exactly like the etcd
+// register does. Only compiled with the verif build tag.
+
+func (self *PartitionReplicaInfo) VerifSetEpoch(e EpochType) { self.epoch = e }
+
+func (self *NamespaceMetaInfo) VerifSetMetaEpoch(e EpochType) { self.metaEpoch = e }
+
+func (self *NodeInfo) VerifSetEpoch(e EpochType) { self.epoch = e }
